@@ -12,7 +12,7 @@ for i in ids:
             env = dict(os.environ, PYTHONPATH=os.environ.get('VERIF_REPO', '/repo'), PYTHONDONTWRITEBYTECODE='1')
             p = subprocess.run(['/venv/bin/python', path], cwd=d, env=env, stdout=subprocess.PIPE, stderr=subprocess.STDOUT, text=True)
         last = (p.stdout.strip().splitlines() or [''])[-1]
-        status = 'defect reproduced' if p.returncode != 0 else 'REPRO PASSES (defect absent?)'
+        status = 'defect reproduced' if (p.returncode != 0 or 'DEFECT REPRODUCED' in p.stdout) else 'REPRO PASSES (defect absent?)'
         if p.returncode == 0:
             rc = 1
         print('%s %s: %s :: %s' % (i, k['signature'], status, last[:150]))
